@@ -201,6 +201,9 @@ func VH_C04_CloseConns() {
 	c := w.vOpenConn(vConnFD, "c", true, true)
 	c2 := w.vOpenConn(vConn2FD, "c2", false, false)
 	vk.MaxWrites = 3
+	// whatever the handler answers from OnClose (also Shutdown), the sweep must reach every connection
+	act := vPick("onclose_action", 3)
+	w.h.onClose = func(cc *conn, err error) Action { return Action(act) }
 	w.el.closeConns()
 	vAssert("C04.closeconns.each_once", w.h.g(c).closes == 1 && w.h.g(c2).closes == 1)
 	vAssert("C04.closeconns.all_released", w.vClosedOK(c, vConnFD) && w.vClosedOK(c2, vConn2FD) && w.el.countConn() == 0)
